@@ -49,6 +49,10 @@ Proof. vm_compute. reflexivity. Qed.
    fresh copy of the system pool per call and nothing at package level holds a pool *)
 Lemma ob_root_pool_fresh_per_config : root_pool_fresh_per_config = true.
 Proof. vm_compute. reflexivity. Qed.
+(* the tls.Config handed to the upstream-proxy dialer (which writes the PROXY's name into it) is a clone: the
+   Transport's own configuration, against which origins are verified, is never written to *)
+Lemma ob_upstream_dialer_gets_tls_clone : upstream_dialer_gets_tls_clone = true.
+Proof. vm_compute. reflexivity. Qed.
 (* InsecureSkipVerify is assigned in exactly one place, under `if c.Insecure` *)
 Lemma ob_insecure_only_under_flag : insecure_only_under_flag = true /\ insecure_skip_verify_sites = 1.
 Proof. vm_compute. split; reflexivity. Qed.
